@@ -64,12 +64,6 @@ DELAY_RND = DELAY_EX + ["i0", "i1", "i7", "f0", "f1", "f5", "b0", "fn:0,0,4", "f
 _quiet = False
 
 
-def setup():
-    from harness.helpers_mpclock import use_real_clock_in_multiprocessing
-
-    use_real_clock_in_multiprocessing()
-
-
 def _silence():
     global _quiet
     if not _quiet:
